@@ -57,7 +57,9 @@ def run(ctx):
     # real patches: the image alphabet replayed with the whole-.text diff after every step and perms at the end
     one = {"B": '{"b1"}', "T": '{"f", "g"}', "CB": '{"c1"}', "RS": "<- RS_1", "A": "{0}", "Ops": "<- ImageOps"}
     behs = life.gen(ctx, one, 2 if q else 3, "image alphabet for real patches")
-    life.replay(ctx, "life", behs)
+    life.replay(ctx, "life", behs, env={"VERIF_WRITES": "1"})
+    # ... and under trace logging (log level and console level both raised; the writes of a patch and of its removal must be the same 13 bytes whatever is logged)
+    life.replay(ctx, "life", behs, env={"VERIF_WRITES": "1", "VERIF_LOG": "trace", "VERIF_QUIET": "1"})
     # the patch layer itself (internal/patch: Patch / Guard.Apply / Unpatch / Restore / Unpatch(target) / UnpatchAll), spec Patch.tla
     from lib.replay import replay_family
     for disc in ("FALSE", "TRUE"):
